@@ -654,7 +654,10 @@ def sig_of(case, want, other):
             return "missing-results"
         for wt, ot in zip(want[1], other[1]):
             if wt != ot:
-                if sorted(map(str, wt)) == sorted(map(str, ot)):
+                def flat(t):
+                    return sorted((x[0] + k, str(x[2])) for x in t
+                                  for k in range(x[1]))
+                if flat(wt) == flat(ot):
                     return "results-out-of-order"
                 if [x[0] for x in wt] != [x[0] for x in ot]:
                     return "wrong-line-numbers"
